@@ -313,6 +313,7 @@ pub fn c12_subs() -> Vec<Box<dyn Sub>> {
             strat: Box::new(|| (0u8..3, vec(iop(8), 0..60)).prop_map(|(kind, ops)| InternCase { kind, ops }).boxed()),
             body: Box::new(intern_body),
             guard_death: false,
+            max_shrink: 4096,
         }),
         Box::new(Check {
             name: "builder",
@@ -321,6 +322,7 @@ pub fn c12_subs() -> Vec<Box<dyn Sub>> {
             strat: Box::new(|| vec(bop(), 0..60).boxed()),
             body: Box::new(builder_body),
             guard_death: false,
+            max_shrink: 4096,
         }),
     ]
 }
